@@ -500,6 +500,7 @@ class Exec:
                             except Exception: continue
             if fdef is None: return None
         if isinstance(fdef, ast.ClassDef): return None
+        if any(ast.unparse(d).split('(')[0].split('.')[-1] not in ('staticmethod', 'wraps') for d in fdef.decorator_list): return None          # a decorated function (lru_cache, contextmanager, ...) is NOT its body
         ex_self = self
         def h(ex, st, e, recv, args, kw, k, K):
             a = fdef.args
